@@ -233,6 +233,29 @@ def run(ctx):
             ctx.fail("a clone's invocation does not run under the clone's own options (or the parent's changed)",
                      {"style": style, "scenario": "clone-sequential"}, refclone,
                      [200, ref["BB"], True, False, True, True])
+        # mutable option values are not shared with a clone: an in-place edit on the clone stays there
+        import suds.plugin
+
+        class Stamp(suds.plugin.MessagePlugin):
+            def marshalled(self, context):
+                context.envelope.set("stamp", "clone")
+
+        pclient, ptr = make_client(style)
+        pclient.set_options(plugins=[], soapheaders={})
+        pclone = pclient.clone()
+        try:
+            pclone.options.plugins.append(Stamp())
+            pclone.options.soapheaders["x"] = "y"
+        except Exception as e:
+            ctx.notes.append("in-place option edit on a clone raised: %r" % e)
+        del ptr.sent[:]
+        call(pclient, "AAAA")()
+        ctx.case(("clone-mutable-options", style), True)
+        leaked = [k for k in ("plugins", "soapheaders") if getattr(pclient.options, k)]
+        if leaked or (ptr.sent and b'stamp="clone"' in ptr.sent[-1]["message"]):
+            ctx.fail("an in-place change of a mutable option value on a clone shows up on the original client",
+                     {"style": style, "scenario": "clone-mutable-options"}, leaked or "request carries the clone's plugin edit",
+                     "clone and original hold separate option values")
         # shared state: only memo cells may change during invocations
         fp0 = shared_fingerprint(client)
         for _ in range(3):
